@@ -326,7 +326,9 @@ def fn(case, ctx):
                 ok, res = ctx.call("produce:boundary_of_surface", B.extract_boundary_of_surface, m0)
                 if not ok: continue
                 res = res[0]
-            elif mdl0.cls == "VolumeMesh" and mdl0.C and all(len(c) == 4 for c in mdl0.C):
+            elif (mdl0.cls == "VolumeMesh" and mdl0.C and all(len(c) == 4 for c in mdl0.C)
+                  and set(key(f) for f in mdl0.F) <= set(key(c[:i] + c[i + 1:]) for c in mdl0.C for i in range(4))):
+                # (a merge of a volume with a surface has faces that bound no cell: its boundary is not defined)
                 if op[2]:
                     ok, res = ctx.call("produce:boundary_of_volume", B.extract_boundary_of_volume, m0)
                     if not ok: continue
@@ -380,6 +382,8 @@ def fn(case, ctx):
                 pool.pop(k)
             got = snapshot(res)
             got.family = set(mdl0.family)
+            got.via_boundary = getattr(mdl0, "via_boundary", False)   # the result keeps the source's vertex arrays
+            got.no_conn = getattr(mdl0, "no_conn", False)
             add(res, got)
             ctx.label("producer=subdivision")
         elif kind == "query":
